@@ -290,6 +290,10 @@ class Walker:
             if x["op"] == "=":
                 self.note_flag(st, key, x["a"][1])
                 fm = self.lin(x["a"][1], st)
+                r_ = sk(x["a"][1])
+                if r_ is not None and r_.get("k") == "Bin" and r_["op"] in ("&&", "||"):
+                    kt = self.known_truth(r_, st)
+                    fm = ({}, 1 if kt else 0) if kt is not None else None
             elif x["op"] in ("+=", "-="):
                 a, b2 = self.lin(x["a"][0], st), self.lin(x["a"][1], st)
                 fm = None if a is None or b2 is None else (L.add(a, b2) if x["op"] == "+=" else L.sub(a, b2))
@@ -317,6 +321,40 @@ class Walker:
                 a = self.lin(y["a"][0], st)
                 d = 1 if "++" in y["op"] else -1
                 self.assign(st, key, None if a is None else (a[0], a[1] + d))
+
+    def known_truth(self, e, st):
+        """Truth value of a boolean expression whose leaves the path has already decided (clang's CFG branches on every
+        leaf of `a && b || c` before the value is stored): True / False / None."""
+        e = sk(e)
+        if e is None:
+            return None
+        while e.get("k") == "Paren":
+            e = sk(e["a"][0])
+        t = st.truth.get(e.get("n"))
+        if t is not None:
+            return t
+        if e.get("k") == "Un" and e["op"] == "!":
+            r = self.known_truth(e["a"][0], st)
+            return None if r is None else not r
+        if e.get("k") == "Bin" and e["op"] in ("&&", "||"):
+            a = self.known_truth(e["a"][0], st)
+            if e["op"] == "&&":
+                if a is False:
+                    return False
+                b = self.known_truth(e["a"][1], st)
+                if b is False and a is not None:
+                    return False
+                return True if (a and b) else None
+            if a is True:
+                return True
+            b = self.known_truth(e["a"][1], st)
+            if b is True and a is not None:
+                return True
+            return False if (a is False and b is False) else None
+        v = cval(e)
+        if v is not None:
+            return bool(v)
+        return None
 
     def note_flag(self, st, key, rhs):
         """`flag = (a < b)`: remember the comparison in the symbolic values of this moment."""
